@@ -604,7 +604,7 @@ pub fn subset(n: usize, k: std::ops::RangeInclusive<usize>) -> impl Strategy<Val
 /// r x n matrix with every row weight >= 2 (decoder-compatible), with classes
 pub fn decoder_matrix(max_r: usize, max_n: usize) -> impl Strategy<Value = Mat> {
     (1..=max_r, 2..=max_n, 0..6u8).prop_flat_map(|(r, n, class)| {
-        let row = move |lo: usize, hi: usize| subset(n, lo..=hi.min(n));
+        let row = move |lo: usize, hi: usize| subset(n, lo.max(2)..=hi.max(2).min(n));
         let rows: BoxedStrategy<Vec<Vec<usize>>> = match class {
             // regular-ish sparse
             0 => proptest::collection::vec(row(2, 3), r).boxed(),
@@ -623,7 +623,7 @@ pub fn decoder_matrix(max_r: usize, max_n: usize) -> impl Strategy<Value = Mat> 
                 })
                 .boxed(),
             // high column degree: all rows share the first two columns
-            3 => proptest::collection::vec(row(0, 3), r)
+            3 => proptest::collection::vec(subset(n, 0..=3), r)
                 .prop_map(|v| {
                     v.into_iter()
                         .map(|mut x| {
